@@ -146,7 +146,7 @@ type c12 struct {
 	other map[string]*verifkit.SKey
 }
 
-var c12Statuses = []int{200, 200, 200, 200, 200, 200, 200, 200, 301, 302, 303, 307, 308, 400, 403, 404, 500, 502, 504}
+var c12Statuses = []int{200, 200, 200, 200, 200, 200, 200, 200, 200, 200, 200, 200, 200, 200, 200, 200, 200, 200, 200, 200, 200, 200, 200, 200, 200, 200, 200, 200, 200, 200, 200, 200, 200, 200, 200, 200, 301, 302, 303, 307, 308, 400, 403, 404, 500, 502, 504}
 
 // ---------------------------------------------------------------------------------------------- get-sth
 
@@ -162,7 +162,7 @@ func (f sthFields) json() []byte {
 
 func (c *c12) sth() {
 	r := c.r
-	n := verifkit.N(150, 6000)
+	n := verifkit.N(300, 8000)
 	for it := 0; it < n; it++ {
 		var k *verifkit.SKey
 		if r.Intn(8) != 0 {
@@ -177,8 +177,8 @@ func (c *c12) sth() {
 		f.sig = c12DS(hash, c12SigAlg(signer), signer.Sign(hash, verifkit.STHSigInput(0, f.ts, f.size, f.root)))
 		class := "valid"
 		body := []byte(nil)
-		switch r.Intn(22) {
-		case 0, 1, 2, 3, 4, 5, 6:
+		switch r.Intn(42) {
+		case 0, 1, 2, 3, 4, 5, 6, 22, 23, 24, 25, 26, 27, 28, 29, 30, 31, 32, 33, 34, 35, 36, 37, 38, 39, 40, 41:
 		case 7:
 			class = "foreign-key-signature"
 			o := c.other[signer.Kind]
@@ -206,8 +206,13 @@ func (c *c12) sth() {
 			class = "signature-truncated"
 			f.sig = f.sig[:r.Intn(len(f.sig))]
 		case 13:
-			class = "signature-empty"
-			f.sig = nil
+			if r.Bool() {
+				class = "signature-empty"
+				f.sig = nil
+			} else {
+				class = "digitally-signed-with-empty-signature"
+				f.sig = []byte{4, byte(c12SigAlg(signer)), 0, 0}
+			}
 		case 14:
 			class = "signature-length-field-wrong"
 			f.sig = append([]byte(nil), f.sig...)
@@ -288,6 +293,12 @@ func (c *c12) oneSTH(class string, k *verifkit.SKey, status int, body []byte) {
 		if status != 200 {
 			c.out.Fail(key+" non-200-accepted", ans)
 		}
+		if _, _, _, ok := c12ParseDS(dec.TreeHeadSignature); !jsonOK || !ok || len(dec.SHA256RootHash) != sha256.Size {
+			c.out.Fail(key+" malformed-response-accepted", ans)
+		}
+		if sth.TreeSize != dec.TreeSize || sth.Timestamp != dec.Timestamp || !bytes.Equal(sth.SHA256RootHash[:], dec.SHA256RootHash) {
+			c.out.Fail(key+" sth-differs-from-response", ans)
+		}
 		if k != nil {
 			// the property: the STH handed back verifies under the configured key (standard library, hand-written signature input)
 			jv := k.Judge(int(ds.Algorithm.Hash), verifkit.STHSigInput(uint64(sth.Version), sth.Timestamp, sth.TreeSize, sth.SHA256RootHash[:]), ds.Signature)
@@ -341,7 +352,8 @@ func (c *c12) chains() []c12Chain {
 	cert := der(testdata.TestCertPEM + testdata.CACertPEM)
 	pre := der(testdata.TestPreCertPEM + testdata.CACertPEM)
 	return []c12Chain{
-		{"cert", false, cert}, {"cert", false, cert}, {"cert", false, cert},
+		{"cert", false, cert}, {"cert", false, cert}, {"cert", false, cert}, {"cert", false, cert}, {"cert", false, cert}, {"cert", false, cert},
+		{"precert", true, pre}, {"precert", true, pre}, {"precert", true, pre},
 		{"cert-alone", false, cert[:1]},
 		{"precert", true, pre}, {"precert", true, pre}, {"precert", true, pre},
 		{"precert-as-cert", false, pre},
@@ -380,7 +392,7 @@ func c12Leaf(ch c12Chain, ts uint64) (state string, etype uint64, cert, ikh, tbs
 func (c *c12) add() {
 	r := c.r
 	chains := c.chains()
-	n := verifkit.N(260, 9000)
+	n := verifkit.N(500, 12000)
 	for it := 0; it < n; it++ {
 		var k *verifkit.SKey
 		if r.Intn(8) != 0 {
@@ -408,8 +420,8 @@ func (c *c12) add() {
 		f.sig = sign(signer, ch, f.ts, ext)
 		class := "valid"
 		body := []byte(nil)
-		switch r.Intn(30) {
-		case 0, 1, 2, 3, 4, 5, 6, 7:
+		switch r.Intn(52) {
+		case 0, 1, 2, 3, 4, 5, 6, 7, 30, 31, 32, 33, 34, 35, 36, 37, 38, 39, 40, 41, 42, 43, 44, 45, 46, 47, 48, 49, 50, 51:
 		case 8:
 			class = "foreign-key-signature"
 			f.sig = sign(c.other[signer.Kind], ch, f.ts, ext)
@@ -418,11 +430,7 @@ func (c *c12) add() {
 			f.sig = c12Flip(f.sig, 32+r.Intn(8*(len(f.sig)-4)))
 		case 10:
 			class = "signature-over-another-chain"
-			o := chains[r.Intn(3)]
-			if ch.name == "cert" || ch.name == "cert-alone" {
-				o = c12Chain{"other", false, []ct.ASN1Cert{chains[0].chain[1]}}
-			}
-			f.sig = sign(signer, o, f.ts, ext)
+			f.sig = sign(signer, c12Chain{"other", false, []ct.ASN1Cert{chains[0].chain[1]}}, f.ts, ext)
 		case 11:
 			class = "signature-over-other-entry-type"
 			f.sig = sign(signer, c12Chain{"x", !ch.pre, ch.chain}, f.ts, ext)
@@ -459,8 +467,13 @@ func (c *c12) add() {
 			class = "signature-trailing-bytes"
 			f.sig = append(append([]byte(nil), f.sig...), r.Bytes(1+r.Intn(3))...)
 		case 21:
-			class = "signature-truncated"
-			f.sig = f.sig[:r.Intn(len(f.sig))]
+			if r.Bool() {
+				class = "signature-truncated"
+				f.sig = f.sig[:r.Intn(len(f.sig))]
+			} else {
+				class = "digitally-signed-with-empty-signature"
+				f.sig = []byte{4, byte(c12SigAlg(signer)), 0, 0}
+			}
 		case 22:
 			class = "signature-length-field-wrong"
 			f.sig = append([]byte(nil), f.sig...)
@@ -589,6 +602,18 @@ func (c *c12) oneAdd(class string, k *verifkit.SKey, ch c12Chain, rsps []c12Rsp)
 		ans = fmt.Sprintf("ok %d %s %d %s %d %d %s", uint64(sct.SCTVersion), verifkit.Hex(sct.LogID.KeyID[:]), sct.Timestamp, verifkit.Hex(sct.Extensions), ds.Algorithm.Hash, ds.Algorithm.Signature, verifkit.Hex(ds.Signature))
 		if sc.last == nil || sc.last.status != 200 {
 			c.out.Fail(key+" non-200-accepted", ans)
+		}
+		if final == nil {
+			c.out.Fail(key+" undecodable-response-accepted", ans)
+		} else {
+			_, _, _, dsok := c12ParseDS(final.Signature)
+			exts, xerr := base64.StdEncoding.DecodeString(final.Extensions)
+			if !dsok || xerr != nil {
+				c.out.Fail(key+" malformed-response-accepted", ans)
+			}
+			if uint64(sct.SCTVersion) != uint64(final.SCTVersion) || sct.Timestamp != final.Timestamp || !bytes.Equal(sct.Extensions, exts) {
+				c.out.Fail(key+" sct-differs-from-response", ans)
+			}
 		}
 		if k != nil {
 			// the property: the SCT verifies for the chain and entry type submitted, and its log ID is the hash of the configured key
